@@ -467,6 +467,72 @@ func init() {
 	registerGen("c07.big", func(g *Gen) { bigGen(g, g.Tier != "quick") })
 	registerGen("c07.bigq", func(g *Gen) { bigGen(g, false) })
 
+	// destination / source TYPES: nesting depth of the type around the compile-time budget (4096), and pointer
+	// types that only ever point to pointer types.  (slice / map nestings between ~12 and 4095 levels are left out:
+	// compiling them takes time exponential in the depth - reported separately, each case would burn its deadline)
+	registerGen("c07.types", func(g *Gen) {
+		if g.Tier == "quick" {
+			// (a never-ending compile costs its 8 s deadline until the guard is in the tree: one of them here)
+			g.Emit("rtype", "unmnull", "selfptr", "0")
+			g.Emit("rtype", "mar", "selfptr", "0")
+			g.Emit("rtype", "preenc", "selfholder", "0")
+			for _, op := range []string{"mar", "unmnull", "pre"} {
+				for _, k := range []string{"arr", "ptr", "slice", "map", "arrptr"} {
+					for _, d := range []int{1, 5} {
+						g.Emit("rtype", op, k, itoa(d))
+					}
+				}
+				for _, d := range []int{1, 5, 100} {
+					g.Emit("rtype", op, "struct", itoa(d))
+					g.Emit("rtype", op, "ptrstruct", itoa(d))
+				}
+			}
+			// beyond the compile-time nesting budget (the cheap ones; the rest in the thorough tier)
+			g.Emit("rtype", "mar", "ptr", "5000")
+			g.Emit("rtype", "unmnull", "slice", "5000")
+			g.Emit("rtype", "pre", "ptr", "5000")
+			g.Emit("rtype", "mar", "slice", "4097")
+			return
+		}
+		// pointer types that only point to pointer types, as destination, element and field
+		for _, c := range [][2]string{{"unmnull", "selfptr"}, {"unm1", "selfptr"}, {"pre", "selfptr"}, {"mar", "selfptr"}, {"marstd", "selfptr"}, {"preenc", "selfptr"},
+			{"unmnull", "mutptr"}, {"predec", "mutptr"}, {"mar", "mutptr"}, {"unmobj", "selfholder"}, {"mar", "selfholder"}, {"preenc", "selfholder"},
+			{"unmnull", "selfslice"}, {"mar", "selfslice"}, {"unm1", "selfmap"}, {"marstd", "selfmap"}} {
+			g.Emit("rtype", c[0], c[1], "0")
+		}
+		for _, op := range rbTypeOps {
+			for _, k := range rbTypeKinds {
+				depths := []int{1, 2, 3, 5, 7, 8}
+				heavy := op == "mar" || op == "unmnull" || op == "pre"
+				switch k {
+				case "arr", "ptr", "arrptr":
+					depths = append(depths, 100)
+					if heavy {
+						depths = append(depths, 1000)
+					}
+					if k == "ptr" && (op == "mar" || op == "unm1") {
+						depths = append(depths, 4095, 4096)
+					}
+				case "struct", "ptrstruct":
+					depths = []int{1, 2, 3, 5, 100}
+					if heavy {
+						depths = append(depths, 1000)
+					}
+				}
+				// beyond the compile-time nesting budget (compiling these takes seconds each)
+				if k != "struct" && k != "ptrstruct" && heavy {
+					depths = append(depths, 5000)
+					if k == "ptr" || k == "slice" {
+						depths = append(depths, 4097, 8192)
+					}
+				}
+				for _, d := range depths {
+					g.Emit("rtype", op, k, itoa(d))
+				}
+			}
+		}
+	})
+
 	registerGen("c07.mar", func(g *Gen) {
 		depths := []int{0, 1, 2, 100, 1000, 2048, 4096, 4097, 10000}
 		if g.Tier != "quick" {
@@ -474,6 +540,10 @@ func init() {
 		}
 		for _, k := range rbMarKinds {
 			for _, c := range rbMarCfgs {
+				// quick tier: the deep and cyclic values under four of the eight encoder entry points
+				if g.Tier == "quick" && (strings.HasPrefix(k, "deep_") || strings.HasPrefix(k, "cyc_")) && !(c == "def" || c == "std" || c == "stream" || c == "enc_all") {
+					continue
+				}
 				switch {
 				case k == "nonenc":
 					for i := 0; i < 42; i++ {
@@ -509,8 +579,9 @@ func init() {
 						g.Emit("rmar", k, "100000", c)
 					}
 				default:
-					for _, d := range []int{0, 1, 1000, 1 << 17, 1 << 20} {
-						if g.Tier == "quick" && d > 1<<17 {
+					for _, d := range []int{0, 1, 1000, 1 << 14, 1 << 17, 1 << 20} {
+						// quick tier: the 128 Ki-element values under the default configuration only
+						if g.Tier == "quick" && (d > 1<<17 || (d == 1<<17 && c != "def")) {
 							continue
 						}
 						g.Emit("rmar", k, itoa(d), c)
